@@ -7,6 +7,7 @@ import (
 	"time"
 
 	libaudit "github.com/elastic/go-libaudit/v2"
+	"github.com/elastic/go-libaudit/v2/auparse"
 
 	"verifharness/internal/mon"
 	"verifharness/internal/reasm"
@@ -81,6 +82,104 @@ func c19Findings(h *reasm.History) ([]reasm.Finding, reasm.Classes) {
 	return out, cl
 }
 
+// c19Reentrant: a Close that is flushing has already happened as far as every later call is
+// concerned: Maintain and Close made from INSIDE the callbacks of the flushing Close are "a second
+// Close / Maintain afterwards" and must return an error and deliver nothing, and the flush itself
+// still delivers every buffered event exactly once.
+type c19Stream struct {
+	r       *libaudit.Reassembler
+	depth   int
+	nested  int // callbacks received while a re-entrant call was running
+	results []string
+	seqs    []uint32
+	armed   bool
+	which   int
+}
+
+func (s *c19Stream) probe() {
+	if !s.armed || s.depth > 0 {
+		return
+	}
+	s.depth++
+	if s.which&1 != 0 {
+		if err := s.r.Maintain(); err == nil {
+			s.results = append(s.results, "Maintain returned nil")
+		}
+	}
+	if s.which&2 != 0 {
+		if err := s.r.Close(); err == nil {
+			s.results = append(s.results, "Close returned nil")
+		}
+	}
+	s.depth--
+}
+
+func (s *c19Stream) ReassemblyComplete(msgs []*auparse.AuditMessage) {
+	if s.depth > 0 {
+		s.nested++
+		return
+	}
+	if len(msgs) > 0 {
+		s.seqs = append(s.seqs, msgs[0].Sequence)
+	}
+	s.probe()
+}
+
+func (s *c19Stream) EventsLost(int) {
+	if s.depth > 0 {
+		s.nested++
+		return
+	}
+	s.probe()
+}
+
+type c19ReCase struct {
+	Max   int      `json:"max_in_flight"`
+	Seqs  []uint32 `json:"pushed_sequences"`
+	Which int      `json:"reentrant_calls"` // bit 0 Maintain, bit 1 Close
+}
+
+func c19Reentrant(c *mon.Ctx, k *c19ReCase) {
+	s := &c19Stream{which: k.Which}
+	r, err := libaudit.NewReassembler(k.Max, time.Hour, s)
+	if err != nil {
+		c.Violation("new-error", "NewReassembler returned "+err.Error(), k)
+		return
+	}
+	s.r = r
+	for _, q := range k.Seqs {
+		r.PushMessage(&auparse.AuditMessage{RecordType: 1300, Sequence: q, Timestamp: time.Unix(1700000000, 0), RawData: "x"})
+	}
+	before := len(s.seqs)
+	want := map[uint32]bool{}
+	for _, q := range k.Seqs {
+		want[q] = true
+	}
+	for _, q := range s.seqs {
+		delete(want, q)
+	}
+	s.armed = true
+	if err := r.Close(); err != nil {
+		c.Violation("close:first-close-error", fmt.Sprintf("the first Close returned %v", err), k)
+	}
+	s.armed = false
+	got := map[uint32]int{}
+	for _, q := range s.seqs[before:] {
+		got[q]++
+	}
+	for q := range want {
+		if got[q] != 1 {
+			c.Violation("close:reentrant-flush-count", fmt.Sprintf("event seq=%d buffered at Close was delivered %d times by a Close whose callbacks re-enter Maintain/Close (exactly once)", q, got[q]), k)
+		}
+	}
+	if len(s.results) > 0 || s.nested > 0 {
+		c.Violation("reentrant-call-after-close", fmt.Sprintf("calls made from inside the callbacks of the flushing Close: %v; %d callbacks were delivered by them (they must return an error and deliver nothing)", s.results, s.nested), k)
+	}
+	if r.Maintain() == nil || r.Close() == nil {
+		c.Violation("call-after-close-nil", "Maintain/Close after the re-entrant Close returned nil", k)
+	}
+}
+
 func init() {
 	register(&mon.CheckSpec{
 		ID: "C19", Level: "exploration",
@@ -89,6 +188,7 @@ func init() {
 			"the library's time.Now() readings lie inside the harness's monotonic bracket of the same call (same process, same clock)",
 			"decisions that fall inside the uncertainty interval around an expiry instant are not decided (counted separately)",
 			"NewReassembler(nil stream) is probed directly",
+			"a Maintain or Close made from inside a callback of the flushing Close counts as made 'afterwards' (the closed flag is set before the flush; C11 demands that exactly one Close succeeds, re-entrant ones included)",
 		},
 		Phases: plainPhase("timed"),
 		Run: func(c *mon.Ctx) {
@@ -106,6 +206,18 @@ func init() {
 				}
 			}
 			c.Add("nil_stream_probes", 3)
+			// re-entrant Maintain / Close from inside the callbacks of the flushing Close
+			reN := c.Counter("reentrant_calls_during_close_flush")
+			for i, m := 0, c.Pick(2000, 200000); i < m; i++ {
+				r := c.Rand(2, uint64(i))
+				k := &c19ReCase{Max: mon.Pick(r, []int{0, 1, 3, 8, 50}), Which: r.Range(1, 3)}
+				base := mon.Pick(r, []uint32{1, 0xFFFFFFFD, 1000})
+				for j, nn := 0, r.Range(1, 10); j < nn; j++ {
+					k.Seqs = append(k.Seqs, base+uint32(r.Intn(8)))
+				}
+				c19Reentrant(c, k)
+				reN.Add(1)
+			}
 			sem := make(chan struct{}, conc)
 			var wg sync.WaitGroup
 			for i := 0; i < n; i++ {
@@ -146,6 +258,12 @@ func init() {
 			c.Require("calls_after_close_observed", 1)
 		},
 		Replay: func(c *mon.Ctx, kase json.RawMessage) {
+			var rk c19ReCase
+			if json.Unmarshal(kase, &rk) == nil && len(rk.Seqs) > 0 {
+				fmt.Printf("replay: re-entrant case %+v\n", rk)
+				c19Reentrant(c, &rk)
+				return
+			}
 			var h reasm.History
 			if err := json.Unmarshal(kase, &h); err != nil {
 				fmt.Println("replay: bad case:", err)
